@@ -351,3 +351,27 @@ Example sublang_example :
   sub_prog [BNewStruct 0 0 1; BNewStruct 1 8 0; BSetUint 1 0 8 258; BSetPtr 0 0 1; BSetRoot 0] = true /\
   arena_spec_wf (ArRaw [24; 16]) /\ root_cap_ok (ArRaw [24; 16]).
 Proof. split; [reflexivity|]. split; [repeat constructor; lia|cbn; lia]. Qed.
+
+Definition ex2_ops : list bop :=
+  [BNewStruct 0 0 1; BNewComp 0 8 1 2; BSetPtr 0 0 1; BRead InDst (OLStruct 1 1); BSetUint 2 0 8 7;
+   BNewStruct 0 8 0; BSetPtr 2 0 3; BNewPList 0 1; BPLSet 4 0 3; BListSetUint 1 0 8 9; BSetRoot 0].
+Definition ex2_env := mkEnv (mkCfg 0 0 true true) (mkCfg 0 0 true true) 0 64%nat.
+Definition ex2_m : bmsg := mkBM AMulti [mkBS [0; 0; 0; 0; 0; 0; 0; 0] 1024] [] 67108864.
+Definition ex2_st0 := mkBSt (mkW ex2_m [] 100) [].
+Lemma seg_bound_b l : forallb (fun st => nsegs (w_dst (st_w st)) <? 4294967296) l = true -> Forall seg_bound l.
+Proof. intros H. apply Forall_forall. intros st Hst. rewrite forallb_forall in H. specialize (H st Hst). unfold seg_bound. lia. Qed.
+
+(* non-vacuity of the extended sub-language: a composite list, a member handle used as data and
+   pointer container, PointerList.Set, a typed setter on the composite list; the premises of
+   [heap_inv_sublang_valid] hold and its conclusion agrees with the computed verdicts *)
+Example sublang_example2 :
+  create (ArMulti None) (init_rlimit (mkCfg 0 0 true true)) = Ok ex2_m /\
+  sub_prog ex2_ops = true /\
+  plain_run ex2_env ex2_st0 ex2_ops /\
+  Forall seg_bound (bstates ex2_env ex2_st0 ex2_ops) /\
+  map (fun st => valid_message (bm_data (w_dst (st_w st)))) (bstates ex2_env ex2_st0 ex2_ops) = repeat VOk 12.
+Proof.
+  split; [vm_compute; reflexivity|]. split; [reflexivity|]. split.
+  - vm_compute. repeat split; intros; reflexivity.
+  - split; [apply seg_bound_b; vm_compute; reflexivity|vm_compute; reflexivity].
+Qed.
